@@ -68,6 +68,29 @@ pub fn run(args: &Args) {
             }).collect();
             times.sort();
             let mut writes = vec![];
+            // now and then the frame begins with a snapshot being loaded (SZX: it carries the last value written to port
+            // 0xFE, so the speaker and MIC levels are part of the state it restores)
+            if !ay && r.chance(1, 6) {
+                use crate::files::*;
+                let mut banks: Vec<Vec<u8>> = (0..8).map(|_| vec![0u8; 16384]).collect();
+                banks[2][..4].copy_from_slice(&[0xED, 0x79, 0x18, 0xFE]);
+                let border = r.below(8) as u8;
+                let fe = border | (r.u8() & 0xF8);
+                let d = MachineDesc {
+                    m128,
+                    cpu: CpuDesc { af: 0, bc: 0, de: 0, hl: 0, af_: 0, bc_: 0, de_: 0, hl_: 0, ix: 0, iy: 0,
+                                   sp: 0xBFF0, pc: CODE + 2, i: 0, r: 0, iff1: false, iff2: false, im: 1 },
+                    border,
+                    latch: 0,
+                    banks,
+                };
+                let t_load = emu.verif_frame_clocks();
+                emu.load_snapshot(rustzx_core::host::Snapshot::Szx(VAsset::new(szx(&d, &SzxOpts { fe: Some(fe), ..Default::default() })))).unwrap();
+                level = (fe >> 3) & 3;
+                // for the judgement this is a write at the very start of the frame
+                writes.push(json!([t_load.min(2), level]));
+                times.retain(|t| *t > 40);
+            }
             for t in times {
                 let cur = emu.verif_frame_clocks();
                 if t < cur + 1 {
